@@ -25,8 +25,8 @@ func init() {
 		Families: func(c *mon.Config) []mon.Family {
 			return []mon.Family{
 				{Name: "all-ranges-structured", N: 3 * 4 * 4 * 3, Run: c13Structured},
-				{Name: "all-ranges-zoo", N: c.Pick(600, 20000), Run: c13AllZoo},
-				{Name: "sampled-long", N: c.Pick(4000, 200000), Run: c13Long},
+				{Name: "all-ranges-zoo", N: c.Pick(1500, 300000), Run: c13AllZoo},
+				{Name: "sampled-long", N: c.Pick(20000, 4000000), Run: c13Long},
 			}
 		},
 	})
